@@ -16,7 +16,11 @@
 (*  "lab"  [name]  "keep"  "nowarn"  "equ" [name, v]                        *)
 (*  "data" [d, addr, vals]       @defb / @defs / @defw (addr = -1: default) *)
 (*  "bytes" [vals]               @bytes                                     *)
-(*  "if"   [var, rel, n, yes, no]  @if({asm|fix} rel n)(yes[,no])           *)
+(*  "if"   [var, rel, n, yes, no]  @if({var} rel n)(yes[,no]): yes and no are *)
+(*                               themselves directive lines of any kind above *)
+(*                               ("sub" with any flags, "rem", "org", "lab",  *)
+(*                               "keep", "nowarn", "data", "bytes", "if";     *)
+(*                               no = [l |-> "none"]: not given)              *)
 (*  "gap"                        blank line: the entry ends                 *)
 (* An instruction is a token [k, a, n, t] whose bytes identify it (t: the   *)
 (* 16-bit operand as written, a candidate instruction address).             *)
@@ -51,7 +55,10 @@ CONSTANTS AsmMode, FixMode,      \* the mode in force for the state machine
           Ctls,                  \* control characters used: subset of {"c", "b", " ", "*"}
           FeatureSets,           \* set of sets of optional line classes; a file uses the classes of one of them
           DirTokKinds,           \* token kinds of the instructions carried by directives
-          DirIns                 \* only the first DirIns instruction lines carry sub/fix directives
+          DirIns,                \* only the first DirIns instruction lines carry sub/fix directives
+          IfConds,               \* set of <<var, rel, n>>: the conditions of the @if lines the generator writes
+          MaxIfs,                \* @if lines per file
+          Rotate                 \* TRUE: the @if actions offer a rotating part of IfConds / FlagSets per step (simulation)
 
 VARIABLES prog, st, gen
 
@@ -153,8 +160,10 @@ UnclaimedNotes == { "org-not-first",       \* "@org works only on the first inst
                     "data-on-unplaced",    \* @defb/@defs/@defw without address default to "the address of the next
                                            \* instruction", which a line without address does not have (skool2asm: TypeError)
                     "bytes-length",        \* @bytes is for "an alternative set of opcodes" of the instruction: same length
-                    "unlabelled-moved-ref" } \* operand = address of an unlabelled instruction that moved:
+                    "unlabelled-moved-ref",\* operand = address of an unlabelled instruction that moved:
                                            \* skool2asm keeps the number and warns "No label for address"
+                    "if-on-option" }       \* a layout-changing directive under @if({base}|{case}|{html}|{vars[..]} ...):
+                                           \* the author asks for an image that depends on skool2asm's options
 \* Inputs on which the tools must agree but this model is not definite
 UndocNotes == { "precedence",              \* executed directives of two kinds on one instruction
                 "label-on-comment-directive",
@@ -164,11 +173,20 @@ UndocNotes == { "precedence",              \* executed directives of two kinds o
 Included(s, am, fm) ==
   \A i \in 1..Len(s.stack) : (s.stack[i].plus = 1) <=> Executed(s.stack[i].kind, am, fm)
 
+\* @if(expr)(true[,false]) "conditionally processes other ASM directives": `true` is processed when expr is true,
+\* `false` (if given) when it is not - processed, i.e. read exactly as if it stood there on a line of its own.
+\* expr is over the replacement fields.  asm and fix are the mode in force, known to every tool; base, case, html
+\* and vars[..] belong to skool2asm / skool2html alone (-D/-H, -l/-u, --var): the layout must not depend on them
+\* (nothing here reads them), so such a condition may only guard a directive without effect on the layout.
+ModeVars == {"asm", "fix"}
 EvalIf(line, am, fm) ==
   LET v == IF line.var = "asm" THEN am ELSE fm
   IN CASE line.rel = ">=" -> v >= line.n
        [] line.rel = "==" -> v = line.n
        [] line.rel = "<" -> v < line.n
+       [] line.rel = ">" -> v > line.n
+       [] line.rel = "!=" -> v # line.n
+LayoutNeutral(line) == line.l \in {"nowarn", "equ", "none"}
 
 \* a placed instruction: a = address, sa = address written on its line (-1: none), va = skool address under
 \* which the reader knows it (-1: none), src = orig / repl / pre / post, ov = it claimed its skool range (|),
@@ -280,8 +298,13 @@ Step(s, line, am, fm) ==
          [] line.l = "keep" -> [s EXCEPT !.pkeep = TRUE]
          [] line.l = "data" -> [s EXCEPT !.pdata = Append(@, line)]
          [] line.l = "bytes" -> [s EXCEPT !.pbytes = line.vals]
-         [] line.l = "if" -> IF EvalIf(line, am, fm) THEN Step(s, line.yes, am, fm)
-                             ELSE IF line.no.l # "none" THEN Step(s, line.no, am, fm) ELSE s
+         \* compositional: whatever kind of directive is wrapped (a removal, a flagged @*sub/@*fix, @org, @label,
+         \* @keep, @bytes, @defb/@defs/@defw, another @if), it is read by this very reader; "none" has no effect
+         [] line.l = "if" -> IF line.var \notin ModeVars
+                             THEN (IF LayoutNeutral(line.yes) /\ LayoutNeutral(line.no) THEN s
+                                   ELSE [s EXCEPT !.notes = @ \cup {"if-on-option"}])
+                             ELSE IF EvalIf(line, am, fm) THEN Step(s, line.yes, am, fm)
+                             ELSE Step(s, line.no, am, fm)
          [] line.l = "gap" -> [s EXCEPT !.removed = {}, !.first = TRUE, !.ent = @ + 1]
          [] OTHER -> s)           \* nowarn, equ, none: no effect on the layout
 
@@ -347,7 +370,7 @@ GenInit == [ n |-> 0,        \* instruction lines written
              bkind |-> "", belse |-> FALSE,
              pend |-> 0,     \* sub/fix directives since the last instruction
              first |-> TRUE, haslab |-> FALSE, hasorg |-> TRUE, hasbytes |-> FALSE, haskeep |-> FALSE,
-             nlab |-> 0, cls |-> "", feat |-> {} ]
+             nlab |-> 0, nif |-> 0, cls |-> "", feat |-> {} ]
 
 Tok(k, a, n, t) == [k |-> k, a |-> a, n |-> n, t |-> t]
 \* Tokens offered for the id-th instruction: three kinds and up to three operand values, rotating with id, so
@@ -387,7 +410,9 @@ Can(c) ==
     [] c = "keep" -> gen.n < MaxIns /\ ~gen.haskeep
     [] c = "data" -> gen.n < MaxIns
     [] c = "bytes" -> gen.n < MaxIns /\ ~gen.hasbytes
-    [] c = "if" -> gen.n < MaxIns /\ gen.pend < MaxDirs /\ gen.n < DirIns
+    [] c = "if" -> gen.n < MaxIns /\ gen.pend < MaxDirs /\ gen.n < DirIns /\ gen.nif < MaxIfs
+    [] c = "ifrem" -> gen.n < MaxIns /\ gen.blk = "" /\ gen.nif < MaxIfs
+    [] c = "ifdir" -> gen.n < MaxIns /\ gen.nif < MaxIfs
     [] c = "gap" -> gen.n > 0 /\ gen.n < MaxIns /\ gen.blk = "" /\ ~gen.first /\ gen.pend = 0 /\ ~gen.haslab
                     /\ ~gen.hasbytes /\ ~gen.haskeep
 
@@ -398,7 +423,8 @@ Emit(line, g) ==
 
 Pick(i) ==
   /\ gen.cls = ""
-  /\ Classes[i] \in gen.feat \cup {"ins", "sub", "lab", "else", "end"}
+  /\ \/ Classes[i] \in gen.feat \cup {"ins", "sub", "lab", "else", "end"}
+     \/ Classes[i] \in {"ifrem", "ifdir"} /\ "if" \in gen.feat
   /\ Len(prog) < MaxLines \/ Classes[i] \in {"ins", "end"}
   /\ Can(Classes[i])
   /\ gen' = [gen EXCEPT !.cls = Classes[i]]
@@ -471,10 +497,39 @@ BytesDir(vals) ==
   /\ vals \in {<<237, 76>>, <<0>>, <<1, 2, 3>>}
   /\ Emit([l |-> "bytes", vals |-> vals], [gen EXCEPT !.hasbytes = TRUE])
 
-If(var, rel, n, yes, hasno, no) ==
+\* @if around every kind of directive.  c = <<var, rel, n>>.
+NoLine == [l |-> "none"]
+IfLine(c, yes, no) == [l |-> "if", var |-> c[1], rel |-> c[2], n |-> c[3], yes |-> yes, no |-> no]
+RelSeq == <<">=", "==", "<", ">", "!=">>
+IfId == Len(prog) + gen.n
+OfferedConds == IF Rotate THEN { c \in IfConds : c[2] \in {RelSeq[(IfId % 5) + 1], RelSeq[((IfId + 2) % 5) + 1]} } ELSE IfConds
+FlagIdx(f) == (8 * f[1]) + (4 * f[2]) + (2 * f[3]) + f[4]
+OfferedFlags == IF Rotate THEN { f \in FlagSets : (FlagIdx(f) + IfId) % 3 = 0 } ELSE FlagSets
+\* conditions over the fields that only skool2asm / skool2html know: around @nowarn only
+OptConds == { <<"base", "==", 16>>, <<"base", "==", 10>>, <<"base", "<", 10>>, <<"case", "==", 1>>, <<"case", "==", 2>>,
+              <<"html", "==", 0>>, <<"html", "==", 1>>, <<"vars", "==", 0>> }
+DataValsOf(d) == CASE d = "defb" -> {<<201>>, <<7, 8, 9>>}
+                   [] d = "defw" -> {<<513>>, <<Base + 1, 258>>}
+                   [] d = "defs" -> {<<2, 255>>, <<4, 17>>}
+
+\* ... an @*sub/@*fix directive that carries an instruction, with any flags (and a label now and then)
+If(c, kind, f, tok, hasno) ==
   /\ gen.cls = "if"
-  /\ Emit([l |-> "if", var |-> var, rel |-> rel, n |-> n, yes |-> yes, no |-> IF hasno THEN no ELSE [l |-> "none"]],
-          [gen EXCEPT !.pend = @ + 1])
+  /\ LET lab == IF TRUE \in LabChoices /\ IfId % 4 = 1 THEN "LD" \o ToString(gen.nlab) ELSE ""
+     IN Emit(IfLine(c, SubLine(kind, f, lab, 1, tok),
+                    IF hasno THEN SubLine(kind, <<0, 0, 0, 0>>, "", 1, Tok("ld8", 99, 0, -1)) ELSE NoLine),
+             [gen EXCEPT !.pend = @ + 1, !.nif = @ + 1, !.nlab = IF lab # "" THEN @ + 1 ELSE @])
+
+\* ... a removal (the false part, if given, removes the range one further on)
+IfRem(c, kind, o, len, hasno) ==
+  /\ gen.cls = "ifrem"
+  /\ LET R(d) == [l |-> "rem", kind |-> kind, a1 |-> gen.sk + o + d, a2 |-> gen.sk + o + d + len - 1]
+     IN Emit(IfLine(c, R(0), IF hasno THEN R(1) ELSE NoLine), [gen EXCEPT !.nif = @ + 1])
+
+\* ... any other directive the file may use (g: the writer's state after it, as for the plain directive)
+IfDir(c, body, g) ==
+  /\ gen.cls = "ifdir"
+  /\ Emit(IfLine(c, body, NoLine), [g EXCEPT !.nif = @ + 1])
 
 Gap ==
   /\ gen.cls = "gap"
@@ -496,11 +551,21 @@ Next == \/ \E i \in 1..Len(Classes) : Pick(i)
         \/ gen.cls = "org" /\ \E v \in {-1, gen.sk, gen.sk + 16} : Org(v)
         \/ gen.cls = "data" /\ \E d \in {"defb", "defs", "defw"}, o \in {-1, 0, 2, 5}, vals \in DataVals : Defx(d, o, vals)
         \/ gen.cls = "bytes" /\ \E vals \in {<<237, 76>>, <<0>>, <<1, 2, 3>>} : BytesDir(vals)
-        \/ gen.cls = "if" /\ \E var \in {"asm", "fix"}, rel \in {">=", "==", "<"}, n \in 1..3, k1 \in DirKinds(gen.n),
-                                f \in FlagSets \cap {<<0, 0, 0, 0>>, <<1, 0, 0, 0>>, <<0, 1, 0, 0>>, <<0, 0, 1, 0>>},
-                                t1 \in DirTokPool(16 + gen.n), hasno \in BOOLEAN :
-                                If(var, rel, n, SubLine(k1, f, "", 1, t1), hasno,
-                                   SubLine(k1, <<0, 0, 0, 0>>, "", 1, Tok("ld8", 99, 0, -1)))
+        \/ gen.cls = "if" /\ \E c \in OfferedConds, k1 \in DirKinds(gen.n), f \in OfferedFlags, t1 \in DirTokPool(16 + gen.n),
+                                hasno \in BOOLEAN : If(c, k1, f, t1, hasno)
+        \/ gen.cls = "ifrem" /\ \E c \in OfferedConds, kind \in DirKinds(gen.n), o \in RemOffs, len \in RemLens, hasno \in BOOLEAN :
+                                   IfRem(c, kind, o, len, hasno)
+        \/ gen.cls = "ifdir" /\ \E c \in OfferedConds :
+              \/ Can("org") /\ "org" \in gen.feat /\ \E v \in {-1, gen.sk, gen.sk + 16} :
+                    IfDir(c, [l |-> "org", v |-> v], [gen EXCEPT !.hasorg = TRUE])
+              \/ Can("lab") /\ IfDir(c, [l |-> "lab", name |-> "LB" \o ToString(gen.nlab)], [gen EXCEPT !.haslab = TRUE, !.nlab = @ + 1])
+              \/ Can("keep") /\ "keep" \in gen.feat /\ IfDir(c, [l |-> "keep"], [gen EXCEPT !.haskeep = TRUE])
+              \/ IfDir(c, [l |-> "nowarn"], gen)
+              \/ "data" \in gen.feat /\ \E d \in {"defb", "defs", "defw"}, o \in {-1, 0, 2} : \E vals \in DataValsOf(d) :
+                    IfDir(c, [l |-> "data", d |-> d, addr |-> IF o = -1 THEN -1 ELSE gen.sk + o, vals |-> vals], gen)
+              \/ Can("bytes") /\ "bytes" \in gen.feat /\ \E vals \in {<<237, 76>>, <<0>>, <<1, 2, 3>>} :
+                    IfDir(c, [l |-> "bytes", vals |-> vals], [gen EXCEPT !.hasbytes = TRUE])
+        \/ gen.cls = "ifdir" /\ \E c \in OptConds : IfDir(c, [l |-> "nowarn"], gen)
 
 Spec == Init /\ [][Next]_<<prog, st, gen>>
 
